@@ -18,6 +18,7 @@ CONSTANTS
   ThrInc = 10000
   MaxClk = 13
   OldPopOrder = FALSE
+  OldTimeCharge = FALSE
   XFlags = {}
   MaxDepth = 3
   MaxFrames = 2
